@@ -51,9 +51,11 @@ theorem stepExact_of_contract (ι : ρ →+* 𝕜) (hι : ∀ x : ρ, (RealLike.
     sum_filter_range, ← h.product i hi j hj]
   apply sum_congr rfl
   intro p _
+  simp only [hι]
   by_cases hz : (k.dsvd M).2.1.getD p 0 = 0
-  · simp [hz, hι]
-  · simp [hz, hι]
+  · simp only [hz, ne_eq, not_true_eq_false, decide_false, map_zero, mul_zero, zero_mul]
+    rfl
+  · simp only [hz, ne_eq, not_false_eq_true, decide_true, if_true]
 
 /-- zero-tolerance `from_vector` reproduces the vector under the kernel contracts at the matrices of the run -/
 theorem fromVector_tol0 (ι : ρ →+* 𝕜) (hι : ∀ x : ρ, (RealLike.ofReal x : 𝕜) = ι x)
